@@ -40,6 +40,8 @@ func runC18(c *Ctx, r *Report) {
 		}
 	}
 	r.Floor("C18-e/ok-checked", 5, "parse sites of funcsTime.go")
+	stageKeepsNoAtomicState(c, r, "C18-f/no-memo", func(p token.Pos) bool { return inFuncsTime(c, p) }, true)
+	c18WholeSecondsOut(c, r, "C18-d/whole-seconds-out")
 }
 
 // evalIntExpr evaluates an integer expression with some identifiers bound.
